@@ -78,3 +78,20 @@ __CPROVER_ensures(SAME(__CPROVER_return_value, FPXA(ROT - 2 * G_Consts_PI * floo
 ;
 void h_angle_across_zero(void) { double a, b, f; Utilities_interpolate_angle_across_zero(a, b, f); REACHABLE(); }
 #endif
+
+#ifdef UNIT_ellipse_fraction
+/* plume membership test: normalised squared radius of `point` in the ellipse (centre, semi-major axis a, eccentricity e,
+ * axis direction theta): (x'/a)^2 + (y'/b)^2 with (x',y') the offset rotated by theta and b = a*sqrt(1-e^2); a point
+ * belongs to the ellipse iff the value is <= 1.  An ellipse without area (a or b below 10*DBL_MIN) contains no point:
+ * the value reported for it must exceed 1 (the caller tests `<= 1`). */
+#define XR FPXA((point->point.e[0] - ellipse_center->point.e[0]) * cos(theta) + (point->point.e[1] - ellipse_center->point.e[1]) * sin(theta))
+#define YR FPXA(-(point->point.e[0] - ellipse_center->point.e[0]) * sin(theta) + (point->point.e[1] - ellipse_center->point.e[1]) * cos(theta))
+#define SEMI_MINOR FPXA(semi_major_axis * sqrt(1 - wb_pow(eccentricity, 2)))
+#define DEGENERATE (semi_major_axis < 10.0 * DBL_MIN || SEMI_MINOR < 10.0 * DBL_MIN)
+double Utilities_fraction_from_ellipse_center__contract(struct Point2 *ellipse_center, double semi_major_axis, double eccentricity, double theta, struct Point2 *point)
+__CPROVER_assigns()
+__CPROVER_ensures(DEGENERATE ==> __CPROVER_return_value > 1.0)
+__CPROVER_ensures(!DEGENERATE ==> SAME(__CPROVER_return_value, FPXA(wb_pow(XR, 2) / wb_pow(semi_major_axis, 2) + wb_pow(YR, 2) / wb_pow(SEMI_MINOR, 2))))
+;
+void h_ellipse_fraction(void) { struct Point2 c, p; double a, e, t; Utilities_fraction_from_ellipse_center(&c, a, e, t, &p); REACHABLE(); }
+#endif
